@@ -160,7 +160,15 @@ def through_classes(ctx):
     algs = [A.FDD_MS(name="a", nxseg=128, method_SD="per", pov=0.25), A.EFDD_MS(name="b", nxseg=64, method_SD="per", pov=0.75),
             A.pLSCF_MS(name="c", ordmax=3, nxseg=128, method_SD="cor")]
     ms.add_algorithms(*algs)
+    # history: every algorithm has already been run once with another overlap / segment length before the judged run - the
+    # result of a run is a function of the current run parameters, not of what an earlier run estimated
+    want = [(a.run_params.pov, a.run_params.nxseg) for a in algs]
+    for a in algs:
+        a.run_params.pov = 0.5
     ms.run_all()
+    for a, (pov, _) in zip(algs, want):
+        a.run_params.pov = pov
+        ms.run_by_name(a.name)
     for a in algs:
         col.count()
         p = a.run_params
